@@ -21,11 +21,16 @@ pub struct Derive {
     pub schema: String, // path relative to the tree root
     pub extra: String,  // further attribute text, e.g. `, response_derives = "Debug"`
     pub faulty: bool,
+    /// "package mode": before this derive the compiler process's CARGO_MANIFEST_DIR is switched to
+    /// this directory (relative to the tree root) and the paths are relative to it, as in a
+    /// proc-macro server that expands derives of several packages in one process.
+    /// `Some("")` = the variable is unset before the derive.
+    pub pkg: Option<String>,
 }
 
 impl Derive {
     pub fn to_json(&self) -> Value {
-        json!({"struct": self.struct_name, "query": self.query, "schema": self.schema, "extra": self.extra, "faulty": self.faulty})
+        json!({"struct": self.struct_name, "query": self.query, "schema": self.schema, "extra": self.extra, "faulty": self.faulty, "pkg": self.pkg})
     }
     pub fn from_json(v: &Value) -> Derive {
         Derive {
@@ -34,6 +39,7 @@ impl Derive {
             schema: v["schema"].as_str().unwrap_or("").to_string(),
             extra: v["extra"].as_str().unwrap_or("").to_string(),
             faulty: v["faulty"].as_bool().unwrap_or(false),
+            pkg: v["pkg"].as_str().map(|s| s.to_string()),
         }
     }
 }
@@ -62,7 +68,22 @@ fn catalogue(tree: &Tree) -> Vec<Derive> {
                     schema: format!("fx/{}/{}", s.dir, s.file),
                     extra: String::new(),
                     faulty: false,
+                    pkg: None,
                 });
+            }
+        }
+    }
+    v
+}
+
+/// Derives in "package mode": directories that hold both `query.graphql` and `schema.graphql`
+/// (the same relative paths, different files).
+fn package_catalogue(tree: &Tree) -> Vec<Derive> {
+    let mut v = vec![];
+    for q in tree.fixtures.iter().filter(|f| f.file == "query.graphql" && !f.deepbad) {
+        if tree.fixtures.iter().any(|s| s.dir == q.dir && s.file == "schema.graphql") {
+            for op in &q.ops {
+                v.push(Derive { struct_name: op.clone(), query: "query.graphql".into(), schema: "schema.graphql".into(), extra: String::new(), faulty: false, pkg: Some(format!("fx/{}", q.dir)) });
             }
         }
     }
@@ -71,6 +92,7 @@ fn catalogue(tree: &Tree) -> Vec<Derive> {
 
 pub fn generate_histories(seed: u64, n: usize, tree: &Tree) -> Vec<Vec<Derive>> {
     let cat = catalogue(tree);
+    let pcat = package_catalogue(tree);
     // every attribute the derive understands, so that anything the proc-macro crate remembers
     // from one derive shows in a later derive with other attributes
     let extras = [
@@ -90,6 +112,20 @@ pub fn generate_histories(seed: u64, n: usize, tree: &Tree) -> Vec<Vec<Derive>> 
     let mut out = vec![];
     for i in 0..n {
         let mut rng = Rng::new(simcore::subseed(seed, "C08/rustc-stage", i as u64));
+        if !pcat.is_empty() && rng.chance(1, 3) {
+            // several packages served by one compiler process
+            let k = rng.range(2, 6);
+            let mut h: Vec<Derive> = (0..k).map(|_| rng.pick(&pcat).clone()).collect();
+            if rng.chance(1, 3) {
+                let mut d = rng.pick(&pcat).clone();
+                d.pkg = Some(String::new()); // CARGO_MANIFEST_DIR unset: this derive must fail, the others not
+                d.faulty = true;
+                let pos = rng.below(h.len());
+                h.insert(pos, d);
+            }
+            out.push(h);
+            continue;
+        }
         let k = rng.range(2, 10);
         let mut h = vec![];
         for _ in 0..k {
@@ -121,13 +157,20 @@ pub fn generate_histories(seed: u64, n: usize, tree: &Tree) -> Vec<Vec<Derive>> 
     out
 }
 
-fn lib_rs(derives: &[Derive]) -> (String, Vec<(usize, usize)>) {
+fn lib_rs(derives: &[Derive], tree_root: &str) -> (String, Vec<(usize, usize)>) {
     let mut s = String::from("#![allow(dead_code, unused_imports, non_camel_case_types, clippy::all)]\n");
     let mut ranges = vec![];
     let mut line = 2;
     for (i, d) in derives.iter().enumerate() {
+        let (env_line, prefix) = match d.pkg.as_deref() {
+            None => (String::new(), "../../../tree/".to_string()),
+            Some("") => ("envhelper::unset_env!(\"CARGO_MANIFEST_DIR\");\n".to_string(), String::new()),
+            Some(p) => (format!("envhelper::set_env!(\"CARGO_MANIFEST_DIR\", \"{}/{}\");\n", tree_root, p), String::new()),
+        };
         let m = format!(
-            "pub mod d{i} {{\n    use graphql_client::GraphQLQuery;\n    type DateTime = String;\n    type URI = String;\n    type Date = String;\n    #[derive(GraphQLQuery)]\n    #[graphql(query_path = \"../../../tree/{q}\", schema_path = \"../../../tree/{s}\"{e})]\n    pub struct {n};\n}}\n",
+            "{env}pub mod d{i} {{\n    use graphql_client::GraphQLQuery;\n    type DateTime = String;\n    type URI = String;\n    type Date = String;\n    #[derive(GraphQLQuery)]\n    #[graphql(query_path = \"{p}{q}\", schema_path = \"{p}{s}\"{e})]\n    pub struct {n};\n}}\n",
+            env = env_line,
+            p = prefix,
             i = i,
             q = d.query,
             s = d.schema,
@@ -142,19 +185,19 @@ fn lib_rs(derives: &[Derive]) -> (String, Vec<(usize, usize)>) {
     (s, ranges)
 }
 
-fn write_crate(ws: &Path, name: &str, derives: &[Derive], repo: &Path) -> Vec<(usize, usize)> {
+fn write_crate(ws: &Path, name: &str, derives: &[Derive], repo: &Path, tree_root: &str) -> Vec<(usize, usize)> {
     let dir = ws.join(name);
     std::fs::create_dir_all(dir.join("src")).unwrap();
     std::fs::write(
         dir.join("Cargo.toml"),
         format!(
-            "[package]\nname = \"{}\"\nversion = \"0.0.0\"\nedition = \"2021\"\n\n[dependencies]\ngraphql_client = {{ path = \"{}/graphql_client\" }}\nserde = {{ version = \"1\", features = [\"derive\"] }}\n",
+            "[package]\nname = \"{}\"\nversion = \"0.0.0\"\nedition = \"2021\"\n\n[dependencies]\ngraphql_client = {{ path = \"{}/graphql_client\" }}\nserde = {{ version = \"1\", features = [\"derive\"] }}\nenvhelper = {{ path = \"../envhelper\" }}\n",
             name,
             repo.display()
         ),
     )
     .unwrap();
-    let (src, ranges) = lib_rs(derives);
+    let (src, ranges) = lib_rs(derives, tree_root);
     std::fs::write(dir.join("src/lib.rs"), src).unwrap();
     ranges
 }
@@ -197,15 +240,26 @@ pub fn run(histories: &[Vec<Derive>], work: &Path, repo: &Path, target: &Path) -
             alone.entry(d.clone()).or_insert_with(|| format!("alone{}", n));
         }
     }
-    let mut members = vec![];
+    let tree_root = work.join("tree").display().to_string();
+    // helper proc-macro crate: set_env!/unset_env! change the environment of the compiler process at
+    // the point of expansion (expansion proceeds in source order)
+    let eh = ws.join("envhelper");
+    std::fs::create_dir_all(eh.join("src")).unwrap();
+    std::fs::write(eh.join("Cargo.toml"), "[package]\nname = \"envhelper\"\nversion = \"0.0.0\"\nedition = \"2021\"\n[lib]\nproc-macro = true\n").unwrap();
+    std::fs::write(
+        eh.join("src/lib.rs"),
+        "extern crate proc_macro;\nuse proc_macro::{TokenStream, TokenTree};\nfn strings(input: TokenStream) -> Vec<String> {\n    input.into_iter().filter_map(|t| match t { TokenTree::Literal(l) => Some(l.to_string().trim_matches('\"').to_string()), _ => None }).collect()\n}\n#[proc_macro]\npub fn set_env(input: TokenStream) -> TokenStream {\n    let s = strings(input);\n    std::env::set_var(&s[0], &s[1]);\n    TokenStream::new()\n}\n#[proc_macro]\npub fn unset_env(input: TokenStream) -> TokenStream {\n    let s = strings(input);\n    std::env::remove_var(&s[0]);\n    TokenStream::new()\n}\n",
+    )
+    .unwrap();
+    let mut members = vec!["envhelper".to_string()];
     let mut ranges: BTreeMap<String, Vec<(usize, usize)>> = BTreeMap::new();
     for (d, name) in &alone {
-        ranges.insert(name.clone(), write_crate(&ws, name, std::slice::from_ref(d), repo));
+        ranges.insert(name.clone(), write_crate(&ws, name, std::slice::from_ref(d), repo, &tree_root));
         members.push(name.clone());
     }
     for (i, h) in histories.iter().enumerate() {
         let name = format!("hist{}", i);
-        ranges.insert(name.clone(), write_crate(&ws, &name, h, repo));
+        ranges.insert(name.clone(), write_crate(&ws, &name, h, repo, &tree_root));
         members.push(name);
     }
     std::fs::write(
@@ -255,7 +309,7 @@ pub fn run(histories: &[Vec<Derive>], work: &Path, repo: &Path, target: &Path) -
                 // compile_error! it emits for a generation error. Errors rustc finds later in the
                 // generated code (missing scalar types, name clashes) are worded depending on the
                 // rest of the crate; for those derives the expanded code itself is compared below.
-                if !(text.contains("derive panicked") || text.contains("Failed to generate GraphQLQuery impl")) {
+                if !(text.contains("derive panicked") || text.contains("Failed to generate GraphQLQuery impl") || text.contains("CARGO_MANIFEST_DIR") || text.contains("ttribute")) {
                     continue;
                 }
                 // rustc's notes and suggestions ("a similar name exists in module …") depend on the
@@ -277,7 +331,7 @@ pub fn run(histories: &[Vec<Derive>], work: &Path, repo: &Path, target: &Path) -
     }
     // every member must have been compiled (artifact) or have produced an error
     let stderr = String::from_utf8_lossy(&out.stderr).to_string();
-    for m in &members {
+    for m in members.iter().filter(|m| *m != "envhelper") {
         if !finished.contains_key(m) && !diags.contains_key(m) {
             let tail: String = stderr.lines().rev().take(12).collect::<Vec<_>>().into_iter().rev().collect::<Vec<_>>().join("\n");
             return StageResult { histories: 0, derives_checked: 0, alone_crates: 0, faulty_derives: 0, expansions_compared: 0, expansion_note: None, samples: vec![], violations: vec![], harness_error: Some(format!("crate {} produced neither an artifact nor an error diagnostic; cargo said:\n{}", m, tail)) };
